@@ -113,6 +113,9 @@ def path_scope(k):
     if k == 'tt':
         return [g for g in fm.enum_exact(fm.LTL_UN, fm.LTL_BIN, (fm.P, fm.Q), 2)
                 if g[0] in fm.TEMP and fm.temporal_count(g) == 2]
+    if k == 'k3':
+        # every 97th path formula with exactly 3 operators over {p,q} (207 of 20 048)
+        return fm.enum_strided(fm.LTL_UN, fm.LTL_BIN, (fm.P, fm.Q), 3, 97)
     return fm.ltl_paths(k)
 
 
@@ -176,15 +179,19 @@ def run(ctx):
                 'differs from the propositional evaluation of g with temporal subformulas read '
                 'as false and as true.')
     if ctx.thorough:
-        scopes = [(1, 2, 1), (2, 2, 1), (3, 1, 1), (4, 1, 4001), (3, 'tt', 5), (3, 2, 211), (4, 'tt', 20011)]
+        scopes = [(1, 2, 1), (2, 2, 1), (3, 1, 1), (4, 1, 4001), (3, 'tt', 5), (3, 2, 211), (4, 'tt', 20011),
+                  (2, 'k3', 1), (3, 'k3', 97), (4, 'k3', 200003)]
         ctx.scopes = ['S(1)+S(2) x LTL path k<=2 (4324 formulas)', 'S(3) x k<=1 (100 formulas)',
                       'every 4001st of S(4) x k<=1', 'every 5th of S(3) x tt (90 formulas with two nested temporal operators)',
-                      'every 211th of S(3) x k<=2', 'every 20011th of S(4) x tt']
+                      'every 211th of S(3) x k<=2', 'every 20011th of S(4) x tt',
+                      'S(2), every 97th of S(3), every 200003rd of S(4) x k3 (every 97th path formula with exactly 3 operators)']
     else:
-        scopes = [(1, 2, 1), (2, 1, 1), (2, 2, 12), (3, 1, 24), (4, 1, 60013), (3, 'tt', 211)]
+        scopes = [(1, 2, 1), (2, 1, 1), (2, 2, 12), (3, 1, 24), (4, 1, 60013), (3, 'tt', 211), (2, 'k3', 16),
+                  (3, 'k3', 1801)]
         ctx.scopes = ['S(1) x k<=2', 'S(2) x k<=1', 'every 12th of S(2) x k<=2',
                       'every 24th of S(3) x k<=1', 'every 60013th of S(4) x k<=1',
-                      'every 211th of S(3) x tt (two nested temporal operators)']
+                      'every 211th of S(3) x tt (two nested temporal operators)',
+                      'every 16th of S(2) and every 1801st of S(3) x k3 (every 97th path formula with exactly 3 operators)']
     ctx.exhaustive = True
     ctx.assumptions = ['reference semantics vp/ref.py (R-STAR certified by R-PATH) is the trusted base',
                        'formulas are bounded to <= 3 temporal operators because the tableau under '
